@@ -21,3 +21,9 @@ for o in obls:
             s.add(*o.hyps); s.add(z3.Not(o.goal))
             t0 = time.time(); r = s.check()
             print(o.name, cfg, r, f'{time.time()-t0:.1f}s', s.reason_unknown() if r == z3.unknown else '')
+        # the same obligation through the SMT-LIB text (what the worker pool sees)
+        for cfg in ({}, {'smt.mbqi': False, 'smt.auto_config': False}, {'smt.mbqi': False}):
+            s = z3.Solver(); s.set('timeout', int(sys.argv[4]) if len(sys.argv) > 4 else 20000)
+            for k, v in cfg.items(): s.set(k, v)
+            s.from_string(o.smt2()); t0 = time.time(); r = s.check()
+            print('  via smt2', cfg, r, f'{time.time()-t0:.1f}s')
